@@ -17,7 +17,7 @@ CHECKS = {
         builds={"default": "", "race": ""},
         technique="property-based testing (rapid) + exhaustive small-key enumeration against independent reference partitioners",
         level_text=("Differential against independently written FNV-1a/CRC-32/murmur2 partitioners: every 0..2-byte key x partition counts "
-                    "enumerated, longer keys generated; model-based sequences for RoundRobin and LeastBytes, incl. concurrent callers. Hash / ReferenceHash with a user-supplied Hasher: values chosen directly at the sign boundaries, and stateful hashers (crc32, fnv) over call sequences; one shared hashing balancer used by 2-16 goroutines at once (also in a race-detector build), every answer compared with the reference; LeastBytes and RoundRobin in spin-barrier rounds (N simultaneous calls pick what some sequential order of them picks: N distinct partitions from a balanced LeastBytes state, the fixed multiset of the round for RoundRobin) and with per-partition totals beyond 2^32 bytes. "
+                    "enumerated, longer keys generated; model-based sequences for RoundRobin and LeastBytes, incl. concurrent callers. Hash / ReferenceHash with a user-supplied Hasher: values chosen directly at the sign boundaries, and stateful hashers (crc32, fnv) over call sequences; one shared hashing balancer used by 2-16 goroutines at once (also in a race-detector build), every answer compared with the reference; LeastBytes and RoundRobin in spin-barrier rounds (N simultaneous calls pick what some sequential order of them picks: N distinct partitions from a balanced LeastBytes state, the fixed multiset of the round for RoundRobin) and with per-partition totals beyond 2^32 bytes; RoundRobin offered partition lists of varying length (one balancer behind several topics); real Writers against the fake cluster: what they offer their balancer is exactly 0..n-1 for topics of up to 400 partitions in histories that make the Writer's cached list grow (TestWriterOffers), and a Writer without Balancer spreads a sequence of calls evenly (TestWriterDefaultBalancer). "
                     "Exploration is the right level: the domain is unbounded, but the hash functions have no key-length-specific branches beyond length mod 4."),
         level_note="trusts the reference formulas (DESIGN.md A.4); that a Writer offers partitions 0..n-1 is checked through real Writers (TestWriterOffers)",
         rule=("cases = (balancer, key, partition count) triples, RoundRobin call sequences and LeastBytes size sequences; "
@@ -356,7 +356,7 @@ CHECKS = {
     "C15": dict(
         pkg="props/c15", level="exploration",
         technique="model-based property testing (rapid): generated histories of Next / Start / function exits / coordinator answers / Close against the fake coordinator, invariants over the recorded timeline and the coordinator journal",
-        level_text=("A ConsumerGroup is driven directly: rounds of Next, Start of functions that wait / return early / linger / are started late, then an ending event (function return, heartbeat error code, dropped heartbeat connection, "
+        level_text=("A ConsumerGroup is driven directly: rounds of Next, Start of functions that wait / return early / linger / are started late, then an ending event (function return, heartbeat error code, dropped heartbeat connection, a heartbeat that is never answered (the generation ends after ConsumerGroupConfig.Timeout), "
                     "coordinator-signalled rebalance, partition count change seen by the watcher, Close, Close while an error is pending), with error codes and dropped connections injected into FindCoordinator/JoinGroup/SyncGroup/OffsetFetch/LeaveGroup "
                     "and yields at the schedule points around Start, function exit and the hand-over to Next. Invariants: Next never returns while a function of the previous generation runs; contexts end within 1 s of the ending event; "
                     "heartbeats carry the generation's ids, stop with it and keep coming while it lives; Close sends LeaveGroup for the member id of the last successful join; a failed join is not retried before JoinGroupBackoff."),
